@@ -70,8 +70,24 @@ def check(ctx, text, opts, meta, trigger=None):
                     'output': out[:240]})
 
 
+def empty_hash_comment(text):
+    from sqlparse import tokens as T
+    for tt, v in sqlparse.lexer.tokenize(text):
+        if tt in T.Comment.Single and v.startswith('#') \
+                and not v[1:].strip():
+            return True
+    return False
+
+
 def attribute(ctx, text, opts):
-    """Known findings D7/D8: serializer's quoted-region detection."""
+    """Known findings D7/D8: serializer's quoted-region detection; D25: an
+    empty '# ' comment."""
+    if empty_hash_comment(text):
+        import re
+        neutral = re.sub(r'# (?=[ \t]*(\r\n|\r|\n|$))', '# x', text)
+        if neutral != text and not empty_hash_comment(neutral) \
+                and _passes(neutral, opts):
+            return ctx.findings.attr('D25')
     if fmtutil.comment_has_quote(text):
         neutral = fmtutil.neutralise_comment_quotes(text)
         if _passes(neutral, opts):
@@ -99,6 +115,8 @@ def _passes(text, opts):
             and len(sqlparse.split(text)) == len(sqlparse.split(out)))
 
 
+D25_ITEMS = ['select 1 # \n from t', 'select a, # \n b from t',
+             'select 1; # \nselect 2']
 D7_ITEMS = ['$$ a  \r\n b $$', '`a  \r\nb`', '$x$line1 \n line2$x$',
             '`n\nm`', '$$\r\n$$']
 
@@ -120,6 +138,9 @@ def shard(ctx):
         if trigger == 'D7':
             text = text.rstrip() + '\nselect ' + rng.choice(D7_ITEMS) \
                 + ' from t'
+        elif trigger is None and rng.random() < 0.03:
+            trigger = 'D25'
+            text = text.rstrip() + '\n' + rng.choice(D25_ITEMS)
         if i % 3 == 0:
             opts = dict(base[(i // 3) % len(base)])
             if rng.random() < 0.3:
